@@ -1,5 +1,8 @@
+pub mod c01;
+pub mod c02;
 pub mod c03;
 pub mod c04;
+pub mod c05;
 pub mod c09;
 pub mod c10;
 
@@ -42,8 +45,11 @@ pub fn run_regressions(id: &str, ctx: &mut Ctx) {
 pub fn run(id: &str, ctx: &mut Ctx) -> bool {
     run_regressions(id, ctx);
     match id {
+        "C01" => c01::run(ctx),
+        "C02" => c02::run(ctx),
         "C03" => c03::run(ctx),
         "C04" => c04::run(ctx),
+        "C05" => c05::run(ctx),
         "C09" => c09::run(ctx),
         "C10" => c10::run(ctx),
         _ => return false,
@@ -78,8 +84,11 @@ pub fn replay(id: &str, ctx: &mut Ctx, file: &str) -> bool {
 
 pub fn replay_value(id: &str, ctx: &mut Ctx, r: &serde_json::Value) -> bool {
     match id {
+        "C01" => c01::replay(ctx, r),
+        "C02" => c02::replay(ctx, r),
         "C03" => c03::replay(ctx, r),
         "C04" => c04::replay(ctx, r),
+        "C05" => c05::replay(ctx, r),
         "C10" => c10::replay(ctx, r),
         _ => {
             let _ = (ctx, r);
